@@ -325,7 +325,7 @@ def run(ck):
             obs = drv.observe()
             steps_, _ = CL.split_steps(drv.trace)
             st = epoch_start(CL, events, steps_, cfg.reset)
-            if st is not None and st >= 0 and obs["procs_pending"] == 0 and not parked(drv) and quiet_tail(CL, events):
+            if st is not None and st >= 0 and obs["procs_pending"] == 0 and not parked(drv) and quiet_drain(CL, events, env):
                 want = [o for (o, k, v) in log.entries if o >= st]      # within one start position nothing is skipped (retention
                 # that overtakes the consumer answers OffsetOutOfRange: a new start position)
                 got = delivered_since_epoch(CL, events, steps_, cfg.reset)
@@ -340,6 +340,24 @@ def run(ck):
                                       "log": [[o, list(k) if k is not None else None, list(v) if v is not None else None] for (o, k, v) in log.entries],
                                       "replay_op": "events"})
     ck.hist("completeness_checked", complete_checked)
+
+    # --- 2a. short honest histories over short logs with a big buffer: nearly every reply carries messages, and the cases are small
+    #         enough for many of them to be re-evaluated inside Coq (vm_compute sample)
+    for i in range(70 * scale):
+        cfg = CL.gen_cfg(rnd)
+        cfg.buf, cfg.maxbuf = 65536, -1
+        log = LL.PartitionLog(rnd, n=rnd.randint(8, 20))
+        ents = [o for (o, k, v) in log.entries]
+        store = LL.OffsetStore(rnd.choice([None] + ents[:3]))
+        events, drv, env = LL.honest_run(rnd, cfg, log, store, rnd.choice([8, 12, 16]), fault=rnd.choice([0.0, 0.1]),
+                                         first=[(CL.EV_START, rnd.choice([CL.OFFSET_EARLIEST, CL.OFFSET_COMMITTED, ents[0], ents[len(ents) // 2]]))],
+                                         weights={"append": 4, "retain": 0, CL.EV_PLAN: 8})
+        log.small = env.small
+        add("honest-short", cfg, events, drv, log)
+        ck.hist("short_honest_runs")
+        for ev in events:
+            if ev[0] == CL.EV_FETCH_OK:
+                ck.hist("fetch_reply_toosmall" if ev[2] else ("fetch_reply_empty" if not ev[1] else "fetch_reply_msgs"))
 
     # --- 2b. replies garbled in transit: one message in the middle of a multi-message reply fails its CRC, the real codec
     #         yields the messages before it and raises; what was extracted must not be fetched / delivered again
@@ -361,7 +379,7 @@ def run(ck):
     ck.hist("garbled_replies", ncorrupt)
 
     # --- 3. arbitrary (also dishonest) environments: correspondence + the log-independent monitors
-    n_any = 120 * scale
+    n_any = 100 * scale
     for i in range(n_any):
         cfg, events, drv = CL.gen_case(rnd, rnd.choice([20, 40, 70]))
         add("any", cfg, events, drv, None)
@@ -404,6 +422,28 @@ def run(ck):
     # --- 4. correspondence with the proved model
     diffs, mo = ck.correspond(MODEL, MODULE, cases, impl, "real Consumer vs Model.Consumer (full canonical trace; honest-broker + arbitrary schedules)",
                               nontrivial=lambda c, o: any(x[0] == CL.OUT_CALLPROC for st in CL.split_steps(o)[0] for x in st), describe=describe)
+    # a larger in-Coq sample: the smallest cases first, several batches of vlib's budget each (the call above samples only the
+    # first cases that fit one batch)
+    label_ = "real Consumer vs Model.Consumer (full canonical trace; honest-broker + arbitrary schedules)"
+    pairs = sorted(zip(cases, mo), key=lambda p: len(p[0]) + len(p[1]))
+    extra, pos = 0, 0
+    for batch in range(4 if not thorough else 10):
+        chunk, size = [], 0
+        while pos < len(pairs) and len(chunk) < 60:
+            s = len(vlib.encode_line(pairs[pos][0])) + len(vlib.encode_line(pairs[pos][1]))
+            if size + s > 19000:
+                break
+            chunk.append(pairs[pos])
+            size += s
+            pos += 1
+        if not chunk:
+            break
+        n_, bad_ = ck.coq_sample(MODEL, MODULE, chunk)
+        extra += n_
+        if bad_:
+            ck.violation({"kind": "extracted model and vm_compute disagree on %d of %d sampled cases" % (bad_, n_)}, no_input=True)
+    ck.cov["correspondence"][label_]["in_coq_sample"] += extra
+    ck.hist("in_coq_sample_cases", ck.cov["correspondence"][label_]["in_coq_sample"])
     if diffs and not ck.violations:
         i = diffs[0]
         label, cfg, events, log = meta[i]
@@ -422,18 +462,26 @@ def run(ck):
 
     if thorough:
         ck.coqchk(["AV.Props.C02"])
-    ck.cov["rule"] = ("seeded generator (random.Random(VERIF_SEED)): partition logs with compaction gaps, plain and gzip-wrapped messages in "
-                      "format 0 and 1, values up to 900 bytes against 64..256-byte buffers, appends and retention; schedules of start "
-                      "(numeric, earliest, latest, committed), stop, shutdown, commit, processor plans (sync, failing, slow, calling stop/commit), "
-                      "timer firings, honest replies and injected retriable errors; plus arbitrary (dishonest) reply streams. "
-                      "A case is non-trivial if the processor was invoked; distinct = distinct canonical case lines.")
+    ck.cov["rule"] = ("seeded generator (random.Random(VERIF_SEED)): partition logs with compaction gaps, plain and gzip-wrapped (also multi-member) "
+                      "messages in format 0 and 1, values up to 900 bytes against 64..1024-byte buffers with and without a maximum (also maxima that "
+                      "are not a growth step), logs of up to 150 entries, appends and retention; schedules of start (numeric, earliest, latest, "
+                      "committed), stop, shutdown, commit, processor plans (sync, failing, slow, paused, already failed, calling stop / commit / "
+                      "shutdown), timer firings, honest replies, injected retriable errors, replies garbled in transit (monitors only); every honest "
+                      "history is drained fault-free; short honest histories; arbitrary (dishonest) reply streams; composed lives over the real "
+                      "KafkaClient with moving leader / coordinator (monitors only).  A case is non-trivial if the processor was invoked; distinct = "
+                      "distinct canonical case lines.")
     ck.assumptions += [
         "hand-written Gallina model Model/Consumer.v stands for afkak/consumer.py:290-1131 (tie: this run's full-trace correspondence)",
         "message keys/values are outside the Gallina model (offsets only); they are compared on the implementation side with the simulated broker's log",
-        "the honest broker and the coordinator store are simulations (harness/props/consumer_log_lib.py) written from the Kafka protocol guide",
-        "theorems assume the interpreter's fuel is not exhausted (run_fuel_ok); the harness derives the fuel from the input size and reports any OFuel output",
+        "the honest broker, the coordinator store and the scripted brokers are simulations (harness/props/consumer_log_lib.py, consumer_compose_lib.py) "
+        "written from the Kafka protocol guide",
+        "the Python monitors are hand re-writes of the Coq automata (REQ, PW, FIFO/LOG, never-idle); only the trace correspondence ties them to the theorems",
+        "fuel: the *_any_fuel theorems need no fuel hypothesis (fuel_enough is proved); the other run-level forms assume run_fuel_ok; the harness derives "
+        "its fuel from the input size and reports any OFuel output of the model",
+        "replies whose decoding raises mid-way, application callbacks that re-enter the consumer (F-C03-3 family) and the real KafkaClient (composed "
+        "stream) are outside the model: monitors only",
         "message-set decoding is afkak's real KafkaCodec over bytes from an independent encoder; its outcome is checked against what the broker served",
-        "extraction: ExtrOcamlBasic; a sample of cases is re-evaluated inside Coq by vm_compute",
+        "extraction: ExtrOcamlBasic; a sample of the smallest cases (several batches) is re-evaluated inside Coq by vm_compute",
     ]
     ck.cov["trusted_base"] += ["correspondence harness harness/props/C02.py, consumer_lib.py, consumer_log_lib.py + harness/vlib.py",
                                "extracted OCaml runner (ExtrOcamlBasic) cross-checked by vm_compute sample"]
@@ -441,6 +489,14 @@ def run(ck):
 
 def parked(drv):
     return drv.req is not None and drv.req[1].called and drv.consumer._request_d is not None
+
+
+def quiet_drain(CL, events, env):
+    """the run ended with a fault-free drain without API calls that either confirmed the end of the log or ran 40 events"""
+    if env.drain_from is None:
+        return False
+    tail = events[env.drain_from:]
+    return all(e[0] not in (CL.EV_START, CL.EV_STOP, CL.EV_SHUTDOWN) for e in tail) and (env.drain_done or len(tail) >= 40)
 
 
 def quiet_tail(CL, events):
